@@ -27,6 +27,7 @@ type Engine struct {
 	reflectPackage     *ssa.Package
 	errorMethods       methodSet
 	wrapErrorMethods   methodSet
+	fakeMethods        map[types.Type]methodSet
 	rtypeMethods       methodSet
 	runtimeErrorString types.Type
 	sizes              types.Sizes
@@ -78,6 +79,7 @@ func Load(repo string, overlay map[string][]byte, patterns []string, env []strin
 		e.runtimeErrorString = rt.Type("errorString").Object().Type()
 	}
 	e.initReflect()
+	e.initFakeTypes()
 	if vp := prog.ImportedPackage(VerifrtPath); vp != nil {
 		e.verifT = vp.Type("T").Object().Type()
 	} else {
